@@ -733,6 +733,44 @@ def gen_clayton_table(rng, d, tries=10):
     return X, False
 
 
+def offdiag_lik_oracle(ctx, counts, rng):
+    """strongly dependent tables (tau ~ 0.9), u far off the diagonal: a pair density underflows to 0 / NaN there, and
+    get_likelihood must still be the sum over ALL edges of the log pair densities, NaN and -inf propagated (center
+    vines, and direct / regular vines with <= 3 columns, where the recorded parent-order findings cannot interfere)."""
+    from copulas.multivariate.vine import VineCopula
+    for d, vts in ((3, TYPES), (4, ('center',))):
+        X = gen_table(rng, d, 'redundant', 90)
+        X2, _ = gen_clayton_table(rng, d, tries=1)
+        for tab in (X, X2):
+            for vt in vts:
+                try:
+                    with time_limit(FIT_TIMEOUT_S):
+                        v = VineCopula(vt)
+                        v.fit(tab, truncated=d)
+                except Exception:  # noqa
+                    counts['refused'] += 1
+                    continue
+                probes = [[0.9, 0.1, 0.1, 0.9][:d], [1e-6, 0.5, 0.5, 1 - 1e-6][:d], [0.1, 0.9, 0.9, 0.1][:d],
+                          [1 - 1e-6, 1e-6, 0.5, 0.5][:d], [rng.choice([0.001, 0.02, 0.98, 0.999]) for _ in range(d)]]
+                for pr in probes:
+                    u = np.array([pr], dtype=float)
+                    r = real_lik(v, u)
+                    with np.errstate(all='ignore'):
+                        try:
+                            want = oracle_lik(v, u)
+                        except Exception as ex:  # noqa
+                            want = 'exc:' + type(ex).__name__
+                    counts['off-diagonal likelihood probes'] += 1
+                    if not isinstance(r, str) and (r != r or math.isinf(r)):
+                        counts['off-diagonal probes with NaN/inf result'] += 1
+                    if isinstance(r, str) or not same_num(r, want, 1e-9):
+                        counts['failures'] += 1
+                        ctx.fail_input('VineCopula.get_likelihood', table_input(tab, vt, d, u=u.tolist()),
+                                       {'get_likelihood': r, 'sum over all edges of log pair densities (NaN/inf propagated)': want},
+                                       'sum of log pair-copula densities at the h-propagated arguments, NaN / -inf included',
+                                       CLS_WRONGCELL if not isinstance(r, str) else 'VineCopula.get_likelihood:raises')
+
+
 def shadow_oracle(ctx, counts, rng):
     """ambient user code must not change a vine: with user subclasses of the library families present (they share
     `copula_type`) and the subclass registry rediscovered, Bivariate(copula_type=...) is still the LIBRARY family and
@@ -1497,7 +1535,8 @@ def new_counts():
             'lik-wrong-value': 0, 'lik-nan-agrees': 0, 'two-column stats': 0, 'refit histories': 0,
             'edges U-checked': 0, 'quantile checks': 0, 'object states': 0, 'vine-sum checks': 0,
             'clayton tables': 0, 'clayton-generated tables with another family': 0, 'inversions checked': 0,
-            'two-column tau checks': 0, 'shadow-class checks': 0}
+            'two-column tau checks': 0, 'shadow-class checks': 0,
+            'off-diagonal likelihood probes': 0, 'off-diagonal probes with NaN/inf result': 0}
 
 
 def search(ctx, deep):
@@ -1540,6 +1579,7 @@ def search(ctx, deep):
             refit_oracle(ctx, B, tB, B, tB, vt, counts, rng)
     sampling_coherence(ctx, counts, rng, deep)
     shadow_oracle(ctx, counts, rng)
+    offdiag_lik_oracle(ctx, counts, rng)
     # object states: restored via from_dict / Multivariate.from_dict / save+load / deepcopy, four label kinds
     for it in range(2 if deep else 1):
         for kind in LABEL_KINDS:
